@@ -578,6 +578,19 @@ func (x *Explorer) mapEvent(st *State, at ssa.Instruction, m ssa.Value, op strin
 	var vt Tag
 	if mu, ok := at.(*ssa.MapUpdate); ok {
 		vt = x.tagsOf(st, mu.Value)
+		// a container installed in the cache / pending store belongs to that store from here on
+		// (`om = newObjectMap(); s.m[k] = om; om.put(o)` is a put into the store s)
+		if st2 := mt & (TCache | TPend); st2 != 0 && isPointerLike(mu.Value.Type()) && named(mu.Value.Type()) != nil && named(mu.Value.Type()).Obj().Pkg() == x.P.Types {
+			switch mu.Value.(type) {
+			case *ssa.Const, *ssa.Global:
+			default:
+				vs := st.symOf(mu.Value)
+				vf := st.facts[vs]
+				vf.Tags |= st2
+				st.env[vkey{st.depth(), mu.Value}] = vs
+				st.facts[vs] = vf
+			}
+		}
 	}
 	switch {
 	case isIdx:
